@@ -116,8 +116,8 @@ func c18Basics(r *hx.Run, cw *c18World, ps *plans, rnd *rand.Rand, n int) {
 			return true
 		}
 		for _, cn := range cw.caches {
-			models[cn] = &entryModel{HFP: 3}
-			nb[cn] = &entryModel{HFP: 3}
+			models[cn] = &entryModel{HFP: 3, TolerateStale: true}
+			nb[cn] = &entryModel{HFP: 3, TolerateStale: true}
 			if !do(cn, uri, models[cn], a) || !do(cn, uri, models[cn], a) || !do(cn, other, nb[cn], ans{Kind: "cacheable", T: 50}) {
 				return
 			}
